@@ -396,7 +396,10 @@ def check_draws(chk, tier):
                     chk.hist("draw:wider-by-construction")     # ColumnWidget / forced column width: outside the theorem
         # ---- (a) correspondence
         if m[0] != 0:
-            _viol(chk, "stream-differs", "the chunk oracle of the harness does not meet the contract on this case", dict(case, model=m), found=False)
+            chk.hist("draw:model=chunk-contract")          # the oracle does not meet chunks_ok: outside the model
+            continue
+        if m[2] == 2:
+            chk.hist("draw:model=out-of-model")            # a negative draw column (forced widths wider than the screen)
             continue
         if not isinstance(d["outcome"], int):
             _viol(chk, "stream-differs", "a draw ended with %s; the model of _draw_screen knows completed / ValueError only" % (d["outcome"],),
